@@ -18,6 +18,10 @@
     class decisions (`index_scalar_needs_integers`, `reduction_scalar_iff`, `squeeze_strict`,
     `C16_view_partial`, `getitem_ints_class`, `ufunc_wrap_class_iff_shape` over all methods,
     `list_coercion_values_converted`).
+  * §7b: `_coerce_iterable_units` is ALSO executed as a program regenerated from the live source
+    (`UnytModel/C16CoerceProg.lean`, `Generated/C16Coerce.lean`); `coerceProg_refines` relates every
+    program meeting the decidable obligation `progOk` to the hand model `coerceList`, and
+    `C16_coerce_prog` decides the obligation for the regenerated program.
   * `ufuncResult` models calls without `out=`; with `out=` the same wrap-up runs on a view of the
     output buffer (exercised by a few `out=` templates of the S7 catalogue, not by a theorem).
 -/
@@ -26,6 +30,9 @@ import UnytModel.Generated.C16Tables
 import UnytModel.Ref.C16
 import UnytProofs.Lemmas.C16Shape
 import UnytProofs.Lemmas.C16Class
+import UnytModel.C16CoerceProg
+import UnytModel.Generated.C16Coerce
+import UnytProofs.Lemmas.C16Coerce
 
 set_option linter.unusedSectionVars false
 set_option linter.unusedVariables false
@@ -704,6 +711,119 @@ end coerce
 /-- non-vacuity over ℚ: `[1 m, 50 cm]` → `[1, 1/2] m` -/
 example : (coerceList (fun a b : CoItem Rat => a.scale != b.scale) [⟨1, 1, 0, Dim.dLength⟩, ⟨50, 1/100, 0, Dim.dLength⟩]).toOption.map (·.1)
     = some [1, 1/2] := by decide +kernel
+
+/-! ## 7b. `_coerce_iterable_units` as a program regenerated from the live source
+
+`UnytModel/C16CoerceProg.lean` interprets the loop body the translator `tools/extract.d/c16_coerce.py`
+extracts (`Generated.c16CoerceProg`); `drv_c16` runs `coerceProg Generated.c16CoerceProg`
+(opcode `c16.coerceprog`). -/
+
+section coerceprog
+open CoProg
+
+/-- **coerceProg_refines** — for EVERY program that meets the decidable obligation `progOk`
+    (first element gives `ff`, the mixed-units test looks at every element, `ff` labels the result, uniform branch keeps the readings, the loop
+    body appends exactly `datum.in_units(ff)` under the error guard in every abstract element
+    state: any dtype kind × commensurable or not × unit equal or not), interpreting the program on
+    any list (any length, any readings, scales, offsets, dimensions, dtype kinds, over any carrier
+    with `+ − × ÷`) gives exactly what the hand-written model `coerceList` gives -/
+theorem coerceProg_refines {K : Type} [Add K] [Sub K] [Mul K] [Div K]
+    (P : Prog) (hP : progOk P = true) (ne : CoItem K → CoItem K → Bool) (items : List (CoElem K)) :
+    coerceProg P ne items = coerceList ne (items.map (·.item)) := by
+  simp only [progOk, Bool.and_eq_true, beq_iff_eq, List.all_eq_true] at hP
+  obtain ⟨⟨⟨⟨h1, h0⟩, h2⟩, h3⟩, h4⟩ := hP
+  cases items with
+  | nil => simp [coerceProg, coerceList, h1]
+  | cons a rest =>
+    have hbody : ∀ it : CoElem K, bodyAction P.body (absOf ne a.item it) = .emit .inUnits true :=
+      fun it => h4 _ (allAbs_complete _)
+    have hany : ((a :: rest).map (·.item)).any (fun it => ne a.item it) = (a :: rest).any (fun it => ne a.item it.item) := by
+      rw [List.any_map]; rfl
+    have hall : ((a :: rest).map (·.item)).all (fun it => it.dim == a.item.dim) = (a :: rest).all (fun it => it.item.dim == a.item.dim) := by
+      rw [List.all_map]; rfl
+    simp only [coerceProg, h1, h0, h2, h3, if_true, List.head?_cons, hbody, Val.apply, Bool.not_true, Bool.false_eq_true, if_false]
+    rw [show coerceList ne ((a :: rest).map (·.item)) =
+        (if ((a :: rest).map (·.item)).any (fun it => ne a.item it) then
+          if ((a :: rest).map (·.item)).all (fun it => it.dim == a.item.dim) then
+            .ok (((a :: rest).map (·.item)).map (fun it => applyConv (convFactor it.scale it.offset a.item.scale a.item.offset) it.value), some a.item)
+          else .error .IterableUnitCoercionError
+        else .ok (((a :: rest).map (·.item)).map (·.value), some a.item)) from rfl]
+    rw [hany, hall, mapE_ok, mapE_guard]
+    by_cases c1 : (a :: rest).any (fun it => ne a.item it.item) = true
+    · by_cases c2 : (a :: rest).all (fun it => it.item.dim == a.item.dim) = true
+      · simp only [c1, c2, if_true, List.map_map]; rfl
+      · simp only [c1, c2, if_true, if_false, Bool.false_eq_true]
+    · simp only [c1, if_false, Bool.false_eq_true, List.map_map]; rfl
+
+/-- **P-tab `C16_coerce_prog`** — the program regenerated from the live `_coerce_iterable_units`
+    meets the obligation (kernel-decided over all 24 abstract element states) -/
+theorem C16_coerce_prog : progOk Generated.c16CoerceProg = true := by decide +kernel
+
+/-- the regenerated program computes `coerceList` on every input -/
+theorem C16_coerce_prog_refines {K : Type} [Add K] [Sub K] [Mul K] [Div K]
+    (ne : CoItem K → CoItem K → Bool) (items : List (CoElem K)) :
+    coerceProg Generated.c16CoerceProg ne items = coerceList ne (items.map (·.item)) :=
+  coerceProg_refines _ C16_coerce_prog ne items
+
+/-- **C16_coerce_values_converted** — last clause of C16 for the code as extracted: over any field,
+    for any list of unyt elements of any dtype kinds, whenever the regenerated program returns,
+    the result has one value per element, is labelled with the first element's unit, and every
+    value denotes in that unit the same base magnitude `s·(x − o)` (scale AND offset) as its element -/
+theorem C16_coerce_values_converted {K : Type} [Lean.Grind.Field K]
+    (ne : CoItem K → CoItem K → Bool)
+    (hne : ∀ a b, ne a b = false → a.scale = b.scale ∧ a.offset = b.offset)
+    (a : CoElem K) (rest : List (CoElem K)) (vals : List K) (ff : Option (CoItem K))
+    (ha : a.item.scale ≠ 0)
+    (h : coerceProg Generated.c16CoerceProg ne (a :: rest) = .ok (vals, ff)) :
+    vals.length = (a :: rest).length ∧
+    ff.map (fun u => (u.scale, u.offset, u.dim)) = some (a.item.scale, a.item.offset, a.item.dim) ∧
+    ∀ p ∈ List.zip vals (a :: rest),
+      toBase a.item.scale a.item.offset p.1 = toBase p.2.item.scale p.2.item.offset p.2.item.value := by
+  rw [C16_coerce_prog_refines] at h
+  have h1 := list_coercion_first_unit ne _ vals ff h
+  have h2 := list_coercion_values_converted ne hne a.item (rest.map (·.item)) vals ff ha (by simpa using h)
+  refine ⟨by simpa using h1.1, h1.2 a.item (rest.map (·.item)) (by simp), ?_⟩
+  intro p hp
+  have : (p.1, p.2.item) ∈ List.zip vals (a.item :: rest.map (·.item)) := by
+    have := List.mem_map_of_mem (f := fun q : K × CoElem K => (q.1, q.2.item)) hp
+    rw [show a.item :: rest.map (·.item) = (a :: rest).map (·.item) from rfl, List.zip_map_right]
+    exact this
+  exact h2 _ this
+
+/-- a program whose body stores anything but the guarded `in_units(ff)` for SOME abstract element
+    state (a fast path, a raw append, a missing append, an unrecognised statement) is rejected -/
+theorem progOk_rejects (P : Prog) (a : ElemAbs) (h : bodyAction P.body a ≠ .emit .inUnits true) :
+    progOk P = false := by
+  cases hp : progOk P with
+  | false => rfl
+  | true =>
+    simp only [progOk, Bool.and_eq_true, beq_iff_eq, List.all_eq_true] at hp
+    exact absurd (hp.2 a (allAbs_complete a)) h
+
+/-- why the rejection matters: storing the scale ratio only (`rescale`) for an element whose unit
+    has another offset than `ff` does NOT denote the element's magnitude — over any field of
+    characteristic 0 the two differ exactly by `s·o − s₀·o₀` -/
+theorem rescale_not_converted {K : Type} [Lean.Grind.Field K] (ff it : CoItem K) (v : K)
+    (hs : ff.scale ≠ 0) (h : Val.rescale.apply ff it false = .ok v) :
+    toBase ff.scale ff.offset v = toBase it.scale it.offset it.value ↔ it.scale * it.offset = ff.scale * ff.offset := by
+  simp only [Val.apply] at h
+  cases h
+  simp only [toBase]
+  constructor <;> intro h <;> grind
+
+end coerceprog
+
+example : CoProg.progOk CoProg.refProg = true := by decide
+example : CoProg.progOk CoProg.fastPathProg = false := by decide
+example : CoProg.bodyAction CoProg.fastPathProg.body ⟨.f, true, false⟩ = .emit .rescale false := by decide
+/-- non-vacuity of `C16_coerce_values_converted` over ℚ with an offset unit: `[1 K, 1 degC]` → `[1, 27415/100] K` -/
+example : (CoProg.coerceProg (K := Rat) CoProg.refProg (fun a b => a.scale != b.scale || a.offset != b.offset)
+      [⟨⟨1, 1, 0, Dim.dTemperature⟩, .f⟩, ⟨⟨1, 1, -27315/100, Dim.dTemperature⟩, .i⟩]).toOption.map (·.1)
+    = some [1, 27415/100] := by decide +kernel
+/-- … and what the fast-path program computes on the same list -/
+example : (CoProg.coerceProg (K := Rat) CoProg.fastPathProg (fun a b => a.scale != b.scale || a.offset != b.offset)
+      [⟨⟨1, 1, 0, Dim.dTemperature⟩, .f⟩, ⟨⟨1, 1, -27315/100, Dim.dTemperature⟩, .f⟩]).toOption.map (·.1)
+    = some [1, 1] := by decide +kernel
 
 /-! ## 8. the shape algebra: when is a result a scalar? -/
 
